@@ -1,3 +1,439 @@
 package main
 
-func runCheck(args []string) {}
+import (
+	"encoding/json"
+	"flag"
+	"fmt"
+	"os"
+	"path/filepath"
+	"regexp"
+	"runtime"
+	"sort"
+	"strconv"
+	"strings"
+	"time"
+)
+
+// PropSpec is /verif/props/Cxx.json.
+type PropSpec struct {
+	ID          string   `json:"id"`
+	Title       string   `json:"title"`
+	Functions   []string `json:"functions"`
+	Lemmas      []string `json:"lemmas"`
+	Floor       int      `json:"floor"`
+	Tags        string   `json:"tags"`
+	Patterns    []string `json:"patterns"`
+	Assumptions []string `json:"assumptions"`
+	Explanation string   `json:"explanation"`
+	Bounded     []struct {
+		What string `json:"what"`
+		Cmd  string `json:"cmd"`
+	} `json:"bounded"`
+	Replay *struct {
+		Template string `json:"template"`
+		Pkg      string `json:"pkg"`
+		Run      string `json:"run"`
+		Tags     string `json:"tags"`
+	} `json:"replay"`
+}
+
+type obligRec struct {
+	ID     string  `json:"id"`
+	Kind   string  `json:"kind"`
+	Clause string  `json:"clause,omitempty"`
+	Tags   []string `json:"tags,omitempty"`
+	Result string  `json:"result"`
+	Solver string  `json:"solver"`
+	TimeS  float64 `json:"time_s"`
+}
+
+type knownFinding struct {
+	fixed bool
+	prop  string
+	oblig string
+	text  string
+}
+
+func loadKnownFindings(path string) []knownFinding {
+	b, err := os.ReadFile(path)
+	if err != nil {
+		return nil
+	}
+	var out []knownFinding
+	reProp := regexp.MustCompile(`property=(\S+)`)
+	reObl := regexp.MustCompile(`obligation=(\S+)`)
+	for _, line := range strings.Split(string(b), "\n") {
+		line = strings.TrimSpace(line)
+		if line == "" || strings.HasPrefix(line, "#") {
+			continue
+		}
+		kf := knownFinding{text: line}
+		switch {
+		case strings.HasPrefix(line, "finding:"):
+		case strings.HasPrefix(line, "fixed:"):
+			kf.fixed = true
+		default:
+			continue
+		}
+		if m := reProp.FindStringSubmatch(line); m != nil {
+			kf.prop = m[1]
+		}
+		if m := reObl.FindStringSubmatch(line); m != nil {
+			kf.oblig = m[1]
+		}
+		out = append(out, kf)
+	}
+	return out
+}
+
+func runCheck(args []string) {
+	fs := flag.NewFlagSet("check", flag.ExitOnError)
+	repo := fs.String("repo", "/repo", "repository")
+	root := fs.String("verif", "/verif", "verif root")
+	tier := fs.String("tier", "quick", "quick|thorough")
+	propFile := fs.String("prop", "", "property spec json")
+	timeout := fs.Int("timeout", 0, "per-obligation timeout (s); default by tier")
+	keep := fs.String("dump", "", "keep SMT files here")
+	fs.Parse(args)
+	t0 := time.Now()
+	fail := func(format string, a ...any) {
+		fmt.Printf("ERROR "+format+"\n", a...)
+		os.Exit(2)
+	}
+	if *propFile == "" {
+		fail("missing -prop")
+	}
+	b, err := os.ReadFile(*propFile)
+	if err != nil {
+		fail("%v", err)
+	}
+	var ps PropSpec
+	if err := json.Unmarshal(b, &ps); err != nil {
+		fail("%s: %v", *propFile, err)
+	}
+	if v := os.Getenv("VERIF_TIER"); v == "quick" || v == "thorough" {
+		*tier = v
+	}
+	seed := 0
+	if v := os.Getenv("VERIF_SEED"); v != "" {
+		seed, _ = strconv.Atoi(v)
+	}
+	to := *timeout
+	if to == 0 {
+		to = 12
+		if *tier == "thorough" {
+			to = 60
+		}
+	}
+	tags := "verif"
+	if ps.Tags != "" {
+		tags = ps.Tags
+	}
+	patterns := defaultPatterns
+	if len(ps.Patterns) > 0 {
+		patterns = ps.Patterns
+	}
+	e := newEngine(*repo)
+	if err := e.loadSpecDir(filepath.Join(*root, "specs")); err != nil {
+		fail("specs: %v", err)
+	}
+	if err := e.load(patterns, tags, nil); err != nil {
+		// A tree that does not compile is not a property violation.
+		fail("cannot load %s: %v", *repo, err)
+	}
+	loadS := time.Since(t0).Seconds()
+	dir := *keep
+	if dir == "" {
+		d, _ := os.MkdirTemp("", "gvc")
+		dir = d
+		defer os.RemoveAll(d)
+	} else {
+		os.MkdirAll(dir, 0o755)
+	}
+	var all []*Oblig
+	warns := []string{}
+	assumed := map[string]bool{}
+	var funcErrs []string
+	for _, k := range ps.Functions {
+		r := e.verifyFunc(k)
+		if r.Err != nil {
+			funcErrs = append(funcErrs, r.Err.Error())
+			continue
+		}
+		all = append(all, r.Obligs...)
+		for _, w := range r.Warns {
+			warns = append(warns, k+": "+w)
+		}
+		for _, a := range r.Assumed {
+			assumed[a] = true
+		}
+	}
+	// lemmas
+	lemmaObls, lerr := loadLemmas(*root, ps.Lemmas, e)
+	if lerr != nil {
+		fail("lemmas: %v", lerr)
+	}
+	all = append(all, lemmaObls...)
+	e.solveAll(all, dir, to, runtime.NumCPU())
+
+	kfs := loadKnownFindings(filepath.Join(*root, "known_findings.txt"))
+	isKnown := func(id string) *knownFinding {
+		for i := range kfs {
+			if !kfs[i].fixed && kfs[i].prop == ps.ID && kfs[i].oblig == id {
+				return &kfs[i]
+			}
+		}
+		return nil
+	}
+	replayDir := filepath.Join(*root, "evidence", "replay", ps.ID)
+	os.RemoveAll(replayDir)
+	var recs []obligRec
+	nOK, nObl, nViol := 0, 0, 0
+	var knownHit []string
+	var solverTime float64
+	bySolver := map[string]int{}
+	var violLines []string
+	for _, o := range all {
+		recs = append(recs, obligRec{o.ID, o.Kind, o.Clause, o.Tags, o.Result, o.Solver, round3(o.TimeS)})
+		solverTime += o.TimeS
+		if o.ok() {
+			nObl++
+			nOK++
+			bySolver[o.Solver]++
+			continue
+		}
+		if kf := isKnown(o.ID); kf != nil {
+			knownHit = append(knownHit, kf.text)
+			fmt.Printf("KNOWN-FINDING: property=%s %s\n", ps.ID, strings.TrimPrefix(kf.text, "finding: "))
+			continue
+		}
+		nObl++
+		nViol++
+		os.MkdirAll(replayDir, 0o755)
+		rp := filepath.Join(replayDir, sanitize(o.ID)+".json")
+		suffix := writeReplay(rp, &ps, o, e, *repo, *root)
+		violLines = append(violLines, fmt.Sprintf("VIOLATION property=%s replay=%s%s", ps.ID, rp, suffix))
+	}
+	// a known finding whose obligation now passes is simply not reported
+	for _, fe := range funcErrs {
+		fmt.Println("ERROR", fe)
+	}
+	sort.Strings(violLines)
+	for _, l := range violLines {
+		fmt.Println(l)
+	}
+	// evidence
+	var samples []any
+	for i, r := range recs {
+		if i%maxInt(1, len(recs)/8) == 0 && len(samples) < 10 {
+			samples = append(samples, r)
+		}
+	}
+	var fns []string
+	fns = append(fns, ps.Functions...)
+	trusted := []string{
+		"golang.org/x/tools go/ssa v0.50.0 (NaiveForm) implements Go semantics",
+		"gvc VC generator (this engine): symbolic execution, memory model, loop cutting",
+		"SMT solvers z3 4.8.12 / z3 5.1.0 / cvc5 1.0 (unsat verdicts)",
+	}
+	var assumedList []string
+	for a := range assumed {
+		assumedList = append(assumedList, a)
+	}
+	sort.Strings(assumedList)
+	assumptions := append([]string{}, ps.Assumptions...)
+	assumptions = append(assumptions, assumedList...)
+	assumptions = append(assumptions,
+		"integers: mathematical Int with exact mod-2^w wrapping on every Go arithmetic result (no overflow assumed away); contract arithmetic is mathematical",
+		"mutexes/atomics are sequential no-ops; goroutines and schedules are out of scope of these contracts",
+		"calls without contract: results unconstrained, static mod-set havocked (listed above when used)")
+	for _, w := range warns {
+		assumptions = append(assumptions, "engine abstraction: "+w)
+	}
+	cover := map[string]any{
+		"obligations":              nObl,
+		"discharged":               nOK,
+		"checker_cmd":              fmt.Sprintf("bin/check %s %s", ps.ID, *tier),
+		"trusted_base":             trusted,
+		"samples":                  samples,
+		"exhaustive":               false,
+		"explanation":              ps.Explanation,
+		"functions_under_contract": fns,
+		"obligation_list":          recs,
+		"solver_time_s":            round3(solverTime),
+		"discharged_by":            bySolver,
+		"load_s":                   round3(loadS),
+		"per_obligation_timeout_s": to,
+		"known_findings":           knownHit,
+		"bounded":                  ps.Bounded,
+		"lemma_files":              ps.Lemmas,
+		"errors":                   funcErrs,
+	}
+	ev := map[string]any{
+		"property_id": ps.ID,
+		"tier":        *tier,
+		"seed":        seed,
+		"level":       "proof",
+		"coverage":    cover,
+		"assumptions": assumptions,
+		"wall_s":      round3(time.Since(t0).Seconds()),
+		"violations":  nViol,
+	}
+	os.MkdirAll(filepath.Join(*root, "evidence"), 0o755)
+	eb, _ := json.MarshalIndent(ev, "", " ")
+	os.WriteFile(filepath.Join(*root, "evidence", ps.ID+".json"), eb, 0o644)
+	fmt.Printf("%s %s: %d obligations, %d discharged, %d violations, %d known findings, %.1fs (load %.1fs)\n", ps.ID, *tier, nObl, nOK, nViol, len(knownHit), time.Since(t0).Seconds(), loadS)
+	if len(funcErrs) > 0 {
+		os.Exit(2)
+	}
+	if nObl < ps.Floor {
+		fmt.Printf("ERROR obligation count %d below floor %d (vacuity guard)\n", nObl, ps.Floor)
+		os.Exit(2)
+	}
+	if nViol > 0 {
+		os.Exit(1)
+	}
+}
+
+func maxInt(a, b int) int {
+	if a > b {
+		return a
+	}
+	return b
+}
+
+func round3(f float64) float64 { return float64(int(f*1000+0.5)) / 1000 }
+
+// loadLemmas reads lemma files: SMT-LIB text split at lines "; lemma <name>".
+// Text before the first marker is a shared prelude.
+func loadLemmas(root string, files []string, e *Engine) ([]*Oblig, error) {
+	var out []*Oblig
+	for _, f := range files {
+		b, err := os.ReadFile(filepath.Join(root, f))
+		if err != nil {
+			return nil, err
+		}
+		lines := strings.Split(string(b), "\n")
+		var prelude []string
+		var cur []string
+		name := ""
+		tags := []string{}
+		flush := func() {
+			if name == "" {
+				return
+			}
+			vc := newVC(e, "lemma:"+filepath.Base(f))
+			vc.sigs = append(vc.sigs, prelude...)
+			vc.sigs = append(vc.sigs, cur...)
+			o := &Oblig{ID: "lemma:" + filepath.Base(f) + "/" + name, Kind: "lemma", Fn: f, Clause: name, Tags: tags,
+				nsigs: len(vc.sigs), nassert: 0, Reach: tTrue, Goal: tFalse, vc: vc, Expect: "unsat"}
+			out = append(out, o)
+		}
+		for _, l := range lines {
+			if strings.HasPrefix(l, "; lemma ") {
+				flush()
+				name = strings.TrimSpace(strings.TrimPrefix(l, "; lemma "))
+				cur = nil
+				continue
+			}
+			if strings.Contains(l, "(check-sat)") || strings.Contains(l, "(set-logic") || strings.Contains(l, "(set-option") || strings.Contains(l, "(get-model)") {
+				continue
+			}
+			if name == "" {
+				prelude = append(prelude, l)
+			} else {
+				cur = append(cur, l)
+			}
+		}
+		flush()
+	}
+	return out, nil
+}
+
+// writeReplay records the failed obligation and attempts a replay against the real code.
+// It returns the suffix for the VIOLATION line ("" or " no-failing-input-found").
+func writeReplay(path string, ps *PropSpec, o *Oblig, e *Engine, repo, root string) string {
+	rep := map[string]any{
+		"property":   ps.ID,
+		"obligation": o.ID,
+		"kind":       o.Kind,
+		"function":   o.Fn,
+		"clause":     o.Clause,
+		"tags":       o.Tags,
+		"position":   o.Pos,
+		"verdict":    o.Result,
+		"solver":     o.Solver,
+		"solver_outputs": o.Outputs,
+	}
+	suffix := " no-failing-input-found"
+	if o.Model != "" {
+		rep["model"] = trimOut(o.Model)
+	}
+	if ps.Replay != nil {
+		res := runReplay(ps, o, repo, root)
+		rep["replay"] = res
+		if ok, _ := res["failing_input_found"].(bool); ok {
+			suffix = ""
+		}
+	} else {
+		rep["replay"] = map[string]any{"attempted": false, "reason": "no replay harness for this property"}
+	}
+	b, _ := json.MarshalIndent(rep, "", " ")
+	os.WriteFile(path, b, 0o644)
+	return suffix
+}
+
+// runReplay injects the property's replay test (an independent oracle driving the
+// real code over small inputs) into /repo through `go test -overlay` and reports
+// whether it found a concrete failing input.
+func runReplay(ps *PropSpec, o *Oblig, repo, root string) map[string]any {
+	res := map[string]any{"attempted": true, "harness": ps.Replay.Template}
+	tmpl, err := os.ReadFile(filepath.Join(root, ps.Replay.Template))
+	if err != nil {
+		res["error"] = err.Error()
+		return res
+	}
+	tmp, err := os.MkdirTemp("", "gvcreplay")
+	if err != nil {
+		res["error"] = err.Error()
+		return res
+	}
+	defer os.RemoveAll(tmp)
+	src := filepath.Join(tmp, "zz_verif_replay_test.go")
+	os.WriteFile(src, tmpl, 0o644)
+	pkgDir := filepath.Join(repo, ps.Replay.Pkg)
+	ov := map[string]any{"Replace": map[string]string{filepath.Join(pkgDir, "zz_verif_replay_test.go"): src}}
+	ob, _ := json.Marshal(ov)
+	ovf := filepath.Join(tmp, "overlay.json")
+	os.WriteFile(ovf, ob, 0o644)
+	args := []string{"test", "-mod=mod", "-overlay", ovf, "-vet=off", "-count=1", "-timeout", "180s", "-run", ps.Replay.Run}
+	if ps.Replay.Tags != "" {
+		args = append(args, "-tags", ps.Replay.Tags)
+	}
+	args = append(args, ".")
+	out, code := runCmd(pkgDir, append(os.Environ(), "GOPROXY=off", "VERIF_OBLIGATION="+o.ID, "VERIF_REPLAY=1"), 240, "go", args...)
+	res["cmd"] = "go " + strings.Join(args, " ")
+	res["exit"] = code
+	var hits []string
+	for _, l := range strings.Split(out, "\n") {
+		if i := strings.Index(l, "FAILING-INPUT:"); i >= 0 {
+			hits = append(hits, strings.TrimSpace(l[i:]))
+		}
+	}
+	if len(hits) > 8 {
+		hits = hits[:8]
+	}
+	res["failing_inputs"] = hits
+	res["failing_input_found"] = len(hits) > 0 && code != 0
+	if len(hits) == 0 {
+		res["output_tail"] = tail(out, 1500)
+	}
+	return res
+}
+
+func tail(s string, n int) string {
+	if len(s) > n {
+		return s[len(s)-n:]
+	}
+	return s
+}
